@@ -1,0 +1,42 @@
+/*
+ * Verification hooks (read-only accessors), compiled only with `--cfg tackler_verif`.
+ * With the guard off this module does not exist.
+ */
+use crate::model::{Transaction, TxnSet};
+use rust_decimal::Decimal;
+use tackler_api::txn_header::TxnHeader;
+
+/// Plain-data view of one posting
+#[derive(Debug, Clone)]
+pub struct PostingParts {
+    pub account: String,
+    pub amount: Decimal,
+    pub commodity: String,
+    pub txn_amount: Decimal,
+    pub txn_commodity: String,
+    pub is_total_amount: bool,
+    pub comment: Option<String>,
+}
+
+pub fn txn_header(txn: &Transaction) -> &TxnHeader {
+    &txn.header
+}
+
+pub fn txn_postings(txn: &Transaction) -> Vec<PostingParts> {
+    txn.posts
+        .iter()
+        .map(|p| PostingParts {
+            account: p.acctn.atn.account.clone(),
+            amount: p.amount,
+            commodity: p.acctn.comm.name.clone(),
+            txn_amount: p.txn_amount,
+            txn_commodity: p.txn_commodity.name.clone(),
+            is_total_amount: p.is_total_amount,
+            comment: p.comment.clone(),
+        })
+        .collect()
+}
+
+pub fn txn_set_txns<'a>(txn_set: &'a TxnSet<'a>) -> &'a [&'a Transaction] {
+    &txn_set.txns
+}
